@@ -54,7 +54,7 @@ Proof.
 Qed.
 
 Lemma finished_noop s th : finished th = true -> thread_step s th = (s, th).
-Proof. destruct th as [[f t|f fl|a] st]; destruct st; simpl; try discriminate; reflexivity. Qed.
+Proof. destruct th as [[f t|f fl|a|f t ti|ti] st]; destruct st; simpl; try discriminate; reflexivity. Qed.
 
 Lemma sched_step_noop c i :
   match thread_at c i with Some th => finished th = true | None => True end -> sched_step c i = c.
